@@ -8,6 +8,7 @@ import (
 	"os"
 	"os/exec"
 	"runtime"
+	"runtime/debug"
 	"sort"
 	"strings"
 	"sync"
@@ -491,6 +492,156 @@ func concSchedules(seed uint64) []schedule {
 			}
 			return outcome, viols
 		}})
+	// ---- C14: after Close, with no read in flight, every file handle is released (real files; collector off) ----
+	for _, shape := range []string{"first-append-at-1", "first-append-at-1000", "rotations", "truncations", "emptied-and-restarted"} {
+		shape := shape
+		out = append(out, schedule{name: "close-releases-files-" + shape, props: []string{"C14"},
+			run: func() (string, []Violation) {
+				debug.SetGCPercent(-1) // the schedule runs in its own process: finalizers of the collector must not do Close's work
+				base := os.Getenv("VERIF_TMP")
+				if base == "" {
+					base = os.TempDir()
+				}
+				dir, err := os.MkdirTemp(base, "verif-closefd-")
+				if err != nil {
+					return "setup-err", nil
+				}
+				defer os.RemoveAll(dir)
+				w, err := wal.Open(dir, wal.WithSegmentSize(4096), wal.WithLogger(hclog.NewNullLogger()))
+				if err != nil {
+					return "setup-err " + err.Error(), nil
+				}
+				steps := []string{"real directory, segment size 4096, garbage collector off", "workload: " + shape, "Close()", "the descriptor table of the process is listed"}
+				next := uint64(1)
+				if shape == "first-append-at-1000" {
+					next = 1000
+				}
+				app := func(n, size int) {
+					for i := 0; i < n; i++ {
+						w.StoreLogs([]*raft.Log{{Index: next, Term: 1, Data: []byte(strings.Repeat("d", size))}})
+						w.DeleteRange(math.MaxUint64, math.MaxUint64)
+						next++
+					}
+				}
+				first := next
+				switch shape {
+				case "first-append-at-1", "first-append-at-1000":
+					app(3, 50)
+				case "rotations":
+					app(12, 1500)
+				case "truncations":
+					app(12, 1500)
+					w.DeleteRange(first, first+4)
+					w.DeleteRange(next-3, next-1)
+					next -= 3
+					app(2, 100)
+				case "emptied-and-restarted":
+					app(5, 1500)
+					w.DeleteRange(first, next-1)
+					next += 50
+					app(3, 100)
+				}
+				var l raft.Log
+				w.GetLog(next-1, &l)
+				cerr := w.Close()
+				open := fdsUnder(dir)
+				outcome := fmt.Sprintf("close=%s open-after-close=%v", walClass(cerr), open)
+				if len(open) > 0 {
+					return outcome, v("C14", "file handles are still open after Close returned although no read is in flight", outcome, steps...)
+				}
+				return outcome, nil
+			}})
+	}
+	// ---- C06: a rotation queued by a sealing append, not yet started when a truncation of the whole log arrives ----
+	for _, whole := range []string{"exact", "beyond"} {
+		whole := whole
+		out = append(out, schedule{name: "queued-rotation-vs-delete-all-" + whole, props: []string{"C06"},
+			run: func() (string, []Violation) {
+				e, err := newConcEnv(150, 0)
+				if err != nil {
+					return "setup-err", nil
+				}
+				defer e.close()
+				steps := []string{"segment size 150", "StoreLogs [1..3] fills the segment; the rotation goroutine is parked before taking the lock",
+					"readers run FirstIndex / LastIndex / GetLog(LastIndex) in a loop", "DeleteRange over the whole log is issued", "the rotation goroutine is resumed",
+					"everything has returned: FirstIndex, LastIndex, GetLog(LastIndex), StoreLogs at another index"}
+				e.p.arm("runRotate:before-lock")
+				e.p.arm("awaitRotation:before-receive")
+				logs := []*raft.Log{{Index: 1, Term: 1, Data: []byte(strings.Repeat("a", 60))}, {Index: 2, Term: 1, Data: []byte(strings.Repeat("b", 60))}, {Index: 3, Term: 1, Data: []byte(strings.Repeat("c", 60))}}
+				if err := e.w.StoreLogs(logs); err != nil {
+					return "setup-err " + err.Error(), nil
+				}
+				if !e.p.waitParked("runRotate:before-lock", concTimeout) {
+					return "rotation-not-triggered", nil
+				}
+				stop := make(chan struct{})
+				var wg sync.WaitGroup
+				var mu sync.Mutex
+				bad := ""
+				for g := 0; g < 3; g++ {
+					wg.Add(1)
+					go func() {
+						defer wg.Done()
+						for {
+							select {
+							case <-stop:
+								return
+							default:
+							}
+							// the log only ever holds [1..3] or nothing during this schedule: LastIndex is 3 or 0, entry 3 is intact
+							// whenever it is returned
+							la, err := e.w.LastIndex()
+							if err == nil && la != 0 && la != 3 {
+								mu.Lock()
+								bad = fmt.Sprintf("LastIndex=%d (the log held [1..3] or nothing)", la)
+								mu.Unlock()
+							}
+							if o := readOutcome(e.w, 3); strings.HasPrefix(o, "ok") && o != "ok "+tokKey(logTok(logs[2])) {
+								mu.Lock()
+								bad = "GetLog(3) returned something else than the stored entry: " + o
+								mu.Unlock()
+							}
+						}
+					}()
+				}
+				mx := uint64(3)
+				if whole == "beyond" {
+					mx = math.MaxUint64 - 1
+				}
+				del := goCall(func() string { return walClass(e.w.DeleteRange(1, mx)) })
+				// the truncation either waits for the queued rotation (it is then parked at the wait) or has gone ahead
+				waited := e.p.waitParked("awaitRotation:before-receive", 300*time.Millisecond)
+				e.p.release("runRotate:before-lock")
+				e.p.release("awaitRotation:before-receive")
+				dres := del.wait(concTimeout)
+				e.w.DeleteRange(math.MaxUint64, math.MaxUint64) // the rotation, if still queued, has run when this returns
+				time.Sleep(20 * time.Millisecond)
+				close(stop)
+				wg.Wait()
+				fi, _ := e.w.FirstIndex()
+				la, _ := e.w.LastIndex()
+				g := "-"
+				if la != 0 {
+					g = readOutcome(e.w, la)
+				}
+				serr := e.w.StoreLogs([]*raft.Log{{Index: 50, Term: 2, Data: []byte("after")}})
+				outcome := fmt.Sprintf("waited=%v del=%s first=%d last=%d get(last)=%s store50=%s", waited, dres, fi, la, clipS(g), walClass(serr))
+				var viols []Violation
+				if dres == "blocked" {
+					viols = append(viols, v("C06", "DeleteRange never returned with a rotation queued", outcome, steps...)...)
+				}
+				if bad != "" {
+					viols = append(viols, v("C06", "a concurrent read observed a value true in no state of the log", bad+" | "+outcome, steps...)...)
+				}
+				if dres == "ok" && (fi != 0 || la != 0) {
+					viols = append(viols, v("C06", "after the whole log was removed and everything returned, FirstIndex/LastIndex still name entries (a value true in no current state)", outcome, steps...)...)
+				}
+				if la != 0 && !strings.HasPrefix(g, "ok") {
+					viols = append(viols, v("C06", "LastIndex names an entry GetLog cannot return although no call is running", outcome, steps...)...)
+				}
+				return outcome, viols
+			}})
+	}
 	// ---- C06 / C13: a reader pinning an old state across truncations ----
 	for _, kind := range []string{"head", "tail"} {
 		kind := kind
